@@ -87,6 +87,7 @@ typedef struct {
   long nout;           /* samples per channel finished by this packet (before any granule trimming) */
   double norm;         /* error scale: L2 norm over channels and bins of floor x (sum of magnitudes of every VQ vector added and of
                           every coupling operand) - equals the spectrum norm when nothing cancels */
+  double chnorm[256];  /* the same per channel (a channel's samples depend on its own spectrum only once coupling is undone) */
   int nonfinite;       /* spectrum contained non-finite or > 1e30 values */
   int floor0_used;
 } sp_pktinfo;
